@@ -641,7 +641,7 @@ pub fn execute(plan: &C10Plan) -> Outcome<C10Plan> {
     };
     // a panic inside the real task
     for p in &sim.panics {
-        if p.file.contains("/verif/") {
+        if p.file.contains("/verif/") || p.env_limit() {
             out.harness_error = Some(format!("driver panic in task {} at {}:{}: {}", p.task, p.file, p.line, p.msg));
         } else {
             set(Violation::new(
@@ -1262,4 +1262,174 @@ pub fn execute_decode1090(plan: &C10Plan) -> Outcome<C10Plan> {
     out.steps = plan.receptions.len() as u64;
     out.violation = viol;
     out
+}
+
+
+// ======================================================================
+// Exhaustive layer: every history of up to L receptions over 3 frames (two
+// decodable, one undecodable) x a grid of 6 timestamps (equal, decreasing,
+// exactly one window apart, one unit more or less), for a window of 2 grid
+// units and for window 0, each executed under the simulator with the real
+// dedup task and judged by the same oracle as the seeded search. One "run" of
+// the batch is a block of consecutive histories of the enumeration.
+
+pub struct C10Grid;
+
+#[derive(Clone, Debug, Serialize, Deserialize)]
+pub struct GridPlan {
+    /// longest history enumerated
+    pub len_max: u8,
+    /// block [start, start + count) of the enumeration
+    pub start: u64,
+    pub count: u64,
+    /// the one history that violates (replay files)
+    #[serde(default, skip_serializing_if = "Option::is_none")]
+    pub explicit: Option<C10Plan>,
+}
+
+const GRID_SYMBOLS: u64 = 18; // 3 frames x 6 stamps
+const GRID_UNIT_MS: u64 = 100;
+const GRID_WINDOWS: [u32; 2] = [200, 0];
+const GRID_BLOCK: u64 = 512;
+
+fn grid_total(len_max: u8) -> u64 {
+    let mut per_window = 0u64;
+    let mut p = 1u64;
+    for _ in 0..len_max {
+        p *= GRID_SYMBOLS;
+        per_window += p;
+    }
+    per_window * GRID_WINDOWS.len() as u64
+}
+
+fn grid_history(len_max: u8, g: u64) -> C10Plan {
+    let per_window = grid_total(len_max) / GRID_WINDOWS.len() as u64;
+    let window_ms = GRID_WINDOWS[(g / per_window) as usize % GRID_WINDOWS.len()];
+    let mut r = g % per_window;
+    let mut len = 1u32;
+    let mut p = GRID_SYMBOLS;
+    while r >= p {
+        r -= p;
+        p *= GRID_SYMBOLS;
+        len += 1;
+    }
+    let mut receptions = Vec::new();
+    for i in 0..len {
+        let d = r % GRID_SYMBOLS;
+        r /= GRID_SYMBOLS;
+        let (frame, stamp) = (d / 6, d % 6);
+        receptions.push(Reception {
+            id: i,
+            frame: frame as u16,
+            rx: (i % 3) as u8,
+            ts_us: (100_000 + GRID_UNIT_MS * stamp) * 1000 + 500,
+            at_ns: 0,
+        });
+    }
+    let mut undec = world::unhex(REAL_FRAMES[2]);
+    undec[13] ^= 0x10;
+    C10Plan {
+        window_ms,
+        cap_in: 8,
+        cap_out: 8,
+        frames: vec![REAL_FRAMES[0].to_string(), REAL_FRAMES[1].to_string(), world::hex(&undec)],
+        n_rx: 3,
+        mode: 0,
+        receptions,
+        stalls: Vec::new(),
+        consumer_crash_after: None,
+        rx_crash_after: vec![None; 3],
+        flush: true,
+        sched: SchedSpec::fifo(),
+    }
+}
+
+impl Scenario for C10Grid {
+    type Plan = GridPlan;
+    fn id(&self) -> &'static str {
+        "C10"
+    }
+    fn kind(&self) -> &'static str {
+        "grid"
+    }
+    fn seed_tag(&self) -> String {
+        "C10/grid".to_string()
+    }
+    fn runs(&self, tier: Tier) -> u64 {
+        let l = if tier == Tier::Quick { 4 } else { 5 };
+        (grid_total(l) + GRID_BLOCK - 1) / GRID_BLOCK
+    }
+    fn generate(&self, _rng: &mut Rng, tier: Tier, idx: u64) -> GridPlan {
+        GridPlan { len_max: if tier == Tier::Quick { 4 } else { 5 }, start: idx * GRID_BLOCK, count: GRID_BLOCK, explicit: None }
+    }
+    fn execute(&self, plan: &GridPlan) -> Outcome<GridPlan> {
+        if let Some(p) = &plan.explicit {
+            let o = execute(p);
+            let mut out: Outcome<GridPlan> = Outcome::new();
+            out.violation = o.violation;
+            out.harness_error = o.harness_error;
+            out.evaluations = 1;
+            out.log_hash = o.log_hash;
+            return out;
+        }
+        let mut out: Outcome<GridPlan> = Outcome::new();
+        let total = grid_total(plan.len_max);
+        let mut log = Fnv::new();
+        for g in plan.start..(plan.start + plan.count).min(total) {
+            let p = grid_history(plan.len_max, g);
+            let o = execute(&p);
+            out.evaluations += 1;
+            out.steps += o.steps;
+            log.u64(o.log_hash);
+            for (k, n) in &o.counters {
+                out.count(k, *n);
+            }
+            // signature of a history = its index: every history is distinct
+            let mut f = Fnv::new();
+            f.u64(g);
+            out.sigs.push(f.0);
+            if p.receptions.windows(2).any(|w| w[1].ts_us <= w[0].ts_us) && !o.oracle_states.is_empty() {
+                out.nontrivial_sigs.push(f.0);
+            }
+            out.oracle_states.extend(o.oracle_states);
+            if let Some(e) = o.harness_error {
+                out.harness_error = Some(e);
+                break;
+            }
+            if let Some(v) = o.violation {
+                out.violation = Some(v);
+                out.narrowed = Some(GridPlan { len_max: plan.len_max, start: g, count: 1, explicit: Some(p) });
+                break;
+            }
+        }
+        out.log_hash = log.0;
+        out.sched_policy = "fifo";
+        out
+    }
+    fn shrink(&self, p: &GridPlan) -> Vec<GridPlan> {
+        match &p.explicit {
+            Some(e) => C10.shrink(e).into_iter().map(|q| GridPlan { len_max: p.len_max, start: p.start, count: 1, explicit: Some(q) }).collect(),
+            None => Vec::new(),
+        }
+    }
+    fn exhaustive(&self, _tier: Tier) -> bool {
+        true
+    }
+    fn meta(&self) -> Meta {
+        Meta {
+            level: "exploration",
+            rule: "Exhaustive enumeration of short histories: every sequence of 1..L receptions (L = 4 quick, 5 thorough) over 3 frames (two decodable, one undecodable) x 6 grid timestamps 100 ms apart (so equal, decreasing, exactly-one-window-apart and one-unit-off stamps all occur), for a window of 200 ms and for window 0, each followed by a flush arrival and executed under the simulator with the real deduplicate_messages and real channels; same oracle as the seeded search. Distinct = one per history. Non-trivial = the history has equal or decreasing stamps and at least one record was emitted.",
+            components: vec![
+                ("jet1090::dedup::deduplicate_messages", "real"),
+                ("tokio::sync::mpsc channels", "real"),
+                ("receivers / consumer / scheduler", "stub (single producer, FIFO scheduler: the history is the only variable here)"),
+            ],
+            assumptions: vec!["the grid bounds the history length (4 / 5), the number of frames (3) and the timestamps (6 values); longer and denser histories are covered by the seeded search only"],
+            fault_kinds: vec!["nonmonotone_arrival", "equal_ms_stamps", "decreasing_stamps"],
+            probes: vec!["monotone_history", "reopened_after_expiry", "late_joiner_past_expiry", "undecodable_dropped", "model_agrees", "model_disagrees", "window_zero"],
+        }
+    }
+    fn sample(&self, p: &GridPlan) -> serde_json::Value {
+        serde_json::json!({"block": [p.start, p.count], "len_max": p.len_max, "first_history_of_block": C10.sample(&grid_history(p.len_max, p.start))})
+    }
 }
